@@ -105,6 +105,9 @@ type flatRun struct {
 	Res  *h.FlattenResult
 	Out  map[string]any // parsed output root
 	OutB *oracle.Bundle
+	// Chained: the output is the result of two calls; the marker put on new definitions by the first call may
+	// legitimately have been inlined by the second one, so it is ignored wherever it appears.
+	Chained bool
 }
 
 func runFlat(in *flatInput, o h.Opts, pol mcrt.Policy) *flatRun {
@@ -160,6 +163,9 @@ func (r *flatRun) eqOpts() *oracle.EqOpts {
 	return &oracle.EqOpts{IgnoreKeyRight: func(n oracle.Node, key string) bool {
 		if key != "x-go-gen-location" || n.File != root {
 			return false
+		}
+		if r.Chained {
+			return true
 		}
 		parts := strings.Split(n.Ptr, "\x00")
 		return len(parts) == 3 && parts[1] == "definitions" && nd[parts[2]]
@@ -245,7 +251,7 @@ func oracleC01(r *flatRun) (string, string) {
 		}
 	}
 	scan(r.Out, nil)
-	if found != "" && !inputHasMarker(r.In.InRoot) {
+	if found != "" && !inputHasMarker(r.In.InRoot) && !r.Chained {
 		return "x-go-gen-location marker outside a new definition", found
 	}
 	return "", ""
@@ -656,6 +662,7 @@ func runFlatProp(c *Ctx, fp *flatProp) {
 		}
 		nt := false
 		for _, o := range in.optionSets(fp.Filter) {
+			c.ChoicePoints += int64(len(idx)) + 2 // which features, which option set, which map order
 			var runs []*flatRun
 			for _, pol := range []mcrt.Policy{mcrt.Asc, mcrt.Desc} {
 				c.Begin(&Violation{Signature: "fatal crash of the process", Generator: "flatten", Input: in.B, Env: J{"policy": int(pol), "opts": o}})
@@ -690,6 +697,67 @@ func runFlatProp(c *Ctx, fp *flatProp) {
 		return !c.Expired()
 	}
 	subsets(len(singles), 1, func(idx []int) bool { return execOne(singles, idx) })
+	if fp.ID == "C01" {
+		// chained calls Flatten(o1); Flatten(o2): the documents reached by a first call are start states of a second
+		// one (every option pair); the reference is always the original bundle.
+		chainFrom := pairs
+		if c.Thorough() {
+			chainFrom = singles
+		}
+		for i := range chainFrom {
+			k++
+			if !c.Mine(k - 1) {
+				continue
+			}
+			in, ok := buildFlatInput(chainFrom, []int{i})
+			if !ok {
+				continue
+			}
+			for _, o1 := range in.optionSets(nil) {
+				r1 := runFlat(in, o1, mcrt.Asc)
+				c.Execs++
+				if !r1.Res.OK() {
+					continue
+				}
+				mid := &flatInput{B: &h.Bundle{Files: map[string]string{}, Root: in.B.Root, Desc: in.Labels}, Spec: specTraits(in.B), Labels: in.Labels}
+				for f, d := range in.B.Files {
+					mid.B.Files[f] = d
+				}
+				mid.B.Files[in.B.Root] = string(r1.Res.Out)
+				if !mid.prepare() {
+					continue
+				}
+				for _, o2 := range mid.optionSets(nil) {
+					if o1.RemoveUnused != o2.RemoveUnused && !o2.RemoveUnused {
+						// fine: a later call without RemoveUnused; kept
+					}
+					c.Begin(&Violation{Signature: "fatal crash of the process", Generator: "flatten", Input: mid.B, Env: J{"policy": 0, "opts": o2}})
+					r2 := runFlat(mid, o2, mcrt.Asc)
+					c.Execs++
+					c.Validated++
+					c.Outcome(r2.Res.Hash())
+					c.ChoicePoints += 3
+					if !r2.Res.OK() {
+						continue // judged by C04/C08
+					}
+					// compare the second output with the ORIGINAL bundle
+					cmp := &flatRun{In: in, Opts: h.Opts{RemoveUnused: o1.RemoveUnused || o2.RemoveUnused}, Pol: mcrt.Asc, Res: r2.Res, Out: r2.Out, Chained: true}
+					cmp.OutB = &oracle.Bundle{Files: map[string]any{}}
+					for f, v := range in.In.Files {
+						cmp.OutB.Files[f] = v
+					}
+					cmp.OutB.Files[in.B.Root] = r2.Out
+					if sig, what := oracleC01(cmp); sig != "" {
+						c.Violate(&Violation{Signature: "after chained calls " + modeOf(o1) + " then " + modeOf(o2) + ": " + sig, What: fmt.Sprintf("Flatten(%s) then Flatten(%s): %s", o1, o2, what),
+							Generator: "flatten-chain", Input: in.B, Env: J{"policy": 0, "opts": o1, "opts2": o2}})
+					}
+				}
+			}
+			if c.Expired() {
+				return
+			}
+		}
+	}
 	if fp.ID == "C04" {
 		conformLoaderSeam(c, singles)
 	}
@@ -724,6 +792,36 @@ func flatReplay(fp *flatProp) func(v *Violation) string {
 		}
 		in := &flatInput{B: &bundle, Spec: specTraits(&bundle)}
 		if !in.prepare() {
+			return ""
+		}
+		if v.Generator == "flatten-chain" {
+			ob2, _ := json.Marshal(v.Env["opts2"])
+			var o2 h.Opts
+			_ = json.Unmarshal(ob2, &o2)
+			r1 := runFlat(in, o, mcrt.Asc)
+			if !r1.Res.OK() {
+				return ""
+			}
+			mid := &flatInput{B: &h.Bundle{Files: map[string]string{}, Root: in.B.Root}, Spec: specTraits(in.B)}
+			for f, d := range in.B.Files {
+				mid.B.Files[f] = d
+			}
+			mid.B.Files[in.B.Root] = string(r1.Res.Out)
+			if !mid.prepare() {
+				return ""
+			}
+			r2 := runFlat(mid, o2, mcrt.Asc)
+			if !r2.Res.OK() {
+				return ""
+			}
+			cmp := &flatRun{In: in, Opts: h.Opts{RemoveUnused: o.RemoveUnused || o2.RemoveUnused}, Pol: mcrt.Asc, Res: r2.Res, Out: r2.Out, OutB: &oracle.Bundle{Files: map[string]any{}}, Chained: true}
+			for f, vv := range in.In.Files {
+				cmp.OutB.Files[f] = vv
+			}
+			cmp.OutB.Files[in.B.Root] = r2.Out
+			if sig, what := oracleC01(cmp); sig != "" {
+				return sig + ": " + what
+			}
 			return ""
 		}
 		r := runFlat(in, o, pol)
